@@ -2,6 +2,7 @@ package world
 
 import (
 	"fmt"
+	"reflect"
 	"sort"
 
 	vmcommon "github.com/ElrondNetwork/elrond-vm-common"
@@ -77,6 +78,9 @@ type NodeCfg struct {
 	// LateSchedule: construct the factory with an older schedule, announce the one in force through
 	// GasScheduleChange before the (first) container is created
 	LateSchedule bool
+	// DNSIntruder: when set, the host goes on using the DNS map it passed to the factory: after every
+	// build it adds this never-configured address to that map object and drops a configured one
+	DNSIntruder string
 }
 
 type gasFactory interface {
@@ -99,6 +103,88 @@ type Node struct {
 	factory   gasFactory
 	Container vmcommon.BuiltInFunctionContainer
 	Restarts  int
+	// FaultAlt: manifestation of the next injected fault (FaultPlan.Alt); set by Run around Execute
+	FaultAlt int
+	// Direct (ghost): function name -> schedule told to that function object alone through its own
+	// SetNewGasConfig since the last accepted factory-wide change (which overrides it again)
+	Direct map[string]Schedule
+	// scratchCost: the one GasCost object the host reuses for direct announcements and overwrites afterwards
+	scratchCost *vmcommon.GasCost
+	// dnsArg: the very map object that was passed to the factory (the host goes on using it)
+	dnsArg map[string]struct{}
+}
+
+// fillCost writes a schedule (or, with s == nil, recognisable garbage) into a GasCost object.
+func fillCost(g *vmcommon.GasCost, s *Schedule) {
+	fill := func(v reflect.Value, m map[string]uint64, junk uint64) {
+		for i := 0; i < v.NumField(); i++ {
+			if s == nil {
+				v.Field(i).SetUint(junk + uint64(i))
+			} else {
+				v.Field(i).SetUint(m[v.Type().Field(i).Name])
+			}
+		}
+	}
+	var base, builtIn map[string]uint64
+	if s != nil {
+		base, builtIn = s.Base, s.BuiltIn
+	}
+	fill(reflect.ValueOf(&g.BaseOperationCost).Elem(), base, 7_000_000_001)
+	fill(reflect.ValueOf(&g.BuiltInCost).Elem(), builtIn, 9_000_000_001)
+}
+
+// RepriceDirect tells the named function objects a schedule through their own SetNewGasConfig, the
+// way a host that holds the objects may; the GasCost object is the host's, reused from call to call
+// and overwritten right after the announcement (the functions must have taken copies). A nil
+// announcement is offered as well: it must change nothing.
+func (nd *Node) RepriceDirect(names []string, s Schedule) int {
+	if nd.scratchCost == nil {
+		nd.scratchCost = &vmcommon.GasCost{}
+	}
+	if nd.Direct == nil {
+		nd.Direct = map[string]Schedule{}
+	}
+	n := 0
+	for _, name := range names {
+		f, err := nd.Container.Get(name)
+		if err != nil {
+			continue
+		}
+		fillCost(nd.scratchCost, &s)
+		f.SetNewGasConfig(nd.scratchCost)
+		fillCost(nd.scratchCost, nil)
+		f.SetNewGasConfig(nil)
+		nd.Direct[name] = s.Clone()
+		n++
+	}
+	return n
+}
+
+// TamperDNSArg: the host goes on using the map it configured the factory with (adds an address that
+// was never configured, drops a configured one). Functions built so far keep the configured set.
+func (nd *Node) TamperDNSArg(intruder []byte) {
+	if nd.dnsArg == nil {
+		return
+	}
+	nd.dnsArg[string(intruder)] = struct{}{}
+	for _, d := range nd.Cfg.DNS {
+		delete(nd.dnsArg, d)
+		break
+	}
+}
+
+// restoreDNSArg puts the configured set back (before the factory is asked for another container:
+// the factory itself keeps the host's map, which is existing behaviour and not judged).
+func (nd *Node) restoreDNSArg() {
+	if nd.dnsArg == nil {
+		return
+	}
+	for k := range nd.dnsArg {
+		delete(nd.dnsArg, k)
+	}
+	for _, d := range nd.Cfg.DNS {
+		nd.dnsArg[d] = struct{}{}
+	}
 }
 
 // NewNode builds a shard with the real factory.
@@ -159,6 +245,11 @@ func (nd *Node) build() error {
 	}
 	nd.factory = fac
 	nd.Container = cont
+	nd.Direct = nil
+	nd.dnsArg = dns
+	if nd.Cfg.DNSIntruder != "" {
+		nd.TamperDNSArg([]byte(nd.Cfg.DNSIntruder))
+	}
 	return nil
 }
 
@@ -190,6 +281,8 @@ func (nd *Node) Rebuild() error {
 	}
 	nd.Clock.DropHandlers()
 	nd.Restarts++
+	nd.restoreDNSArg()
+	nd.Direct = nil
 	cont, err := nd.factory.CreateBuiltInFunctionContainer()
 	if err != nil {
 		return fmt.Errorf("container: %w", err)
@@ -198,6 +291,9 @@ func (nd *Node) Rebuild() error {
 		return fmt.Errorf("payable handler: %w", err)
 	}
 	nd.Container = cont
+	if nd.Cfg.DNSIntruder != "" {
+		nd.TamperDNSArg([]byte(nd.Cfg.DNSIntruder))
+	}
 	return nil
 }
 
@@ -206,6 +302,7 @@ func (nd *Node) ChangeSchedule(s Schedule) bool {
 	nd.factory.GasScheduleChange(s.ToMap())
 	if s.Valid() {
 		nd.Sched = s.Clone()
+		nd.Direct = nil // an accepted schedule reaches every function of the container
 		return true
 	}
 	return false
@@ -218,6 +315,13 @@ func (nd *Node) ChangeScheduleRaw(m map[string]map[string]uint64) {
 
 // ContainerNames lists the registered names (sorted).
 func (nd *Node) ContainerNames() []string {
+	// the returned key set belongs to the caller: it is emptied here, and a second call must still
+	// list what the container holds
+	first := nd.Container.Keys()
+	for k := range first {
+		delete(first, k)
+	}
+	first["zzNotAFunction"] = struct{}{}
 	keys := nd.Container.Keys()
 	out := make([]string, 0, len(keys))
 	for k := range keys {
